@@ -1,6 +1,7 @@
 (* Property C10 - every record is counted once or reported skipped; strict mode; no partial output. *)
-From Sfs Require Import Index ArrayM Scalar Spectrum Project Create SampleParse IndexP ArrayP BinomP ProjectP CreateP CreateSpecP SampleParseP.
+From Sfs Require Import Index ArrayM Scalar Spectrum Project Create SampleParse Npy Text Container IndexP ArrayP BinomP ProjectP CreateP CreateSpecP SampleParseP ContainerP.
 From Coq Require Import Permutation.
+Close Scope string_scope.
 
 Close Scope Qc_scope. Close Scope Q_scope. Open Scope nat_scope.
 
